@@ -52,6 +52,8 @@ var goSrcFuncs = []string{
 	"isValidTrueAtom", "isValidFalseAtom", "isValidNullAtom", "parseNumber",
 	"Iter.MarshalJSONBuffer", "escapeBytes", "Array.MarshalJSONBuffer", "ParsedJson.ForEach",
 	"Array.AsFloat", "Array.AsInteger", "Array.AsUint64",
+	"ParsedJson.get_current_loc", "ParsedJson.write_tape", "ParsedJson.writeTapeTagVal", "ParsedJson.writeTapeTagValFlags",
+	"ParsedJson.write_tape_s64", "ParsedJson.write_tape_double", "ParsedJson.annotate_previousloc", "parseString", "addNumber",
 }
 
 type goBlock struct {
@@ -409,6 +411,14 @@ func (t *gsTr) expr(e ast.Expr, want gty) (string, gty) {
 			return fmt.Sprintf("(.v %s)", strconv.Quote(id.Name+"."+x.Sel.Name)), ty
 		}
 		gsDie(e, "selector")
+	case *ast.CompositeLit:
+		// [N]byte{}: a zeroed array
+		if at, ok := x.Type.(*ast.ArrayType); ok && at.Len != nil && len(x.Elts) == 0 {
+			if el, ok := at.Elt.(*ast.Ident); ok && (el.Name == "byte" || el.Name == "uint8") {
+				return fmt.Sprintf("(.zerosB %s)", t.p.eval(at.Len, 0).String()), tyBytes
+			}
+		}
+		gsDie(e, "composite literal")
 	case *ast.SliceExpr:
 		b, bty := t.expr(x.X, tyUnk)
 		if bty != tyBytes || x.Slice3 {
@@ -534,6 +544,22 @@ func (t *gsTr) expr(e ast.Expr, want gty) (string, gty) {
 			// append(make([]T, 0, n), y...) is a copy of y
 			if mk, ok := x.Args[0].(*ast.CallExpr); ok && len(mk.Args) == 3 && nows(src(mk.Fun)) == "make" && nows(src(mk.Args[1])) == "0" {
 				return t.expr(x.Args[1], tyBytes)
+			}
+		}
+		if id, ok := x.Fun.(*ast.Ident); ok && id.Name == "make" && (len(x.Args) == 2 || len(x.Args) == 3) && tyOfTypeExpr(x.Args[0]) == tyBytes {
+			n, nty := t.expr(x.Args[1], tyInt)
+			if nty == tyU64 {
+				n, nty = "(.conv .int "+n+")", tyInt
+			}
+			if nty != tyInt {
+				gsDie(e, "make length type")
+			}
+			return fmt.Sprintf("(.zerosBn %s)", n), tyBytes // the capacity argument does not influence the content
+		}
+		if id, ok := x.Fun.(*ast.Ident); ok && id.Name == "cap" && len(x.Args) == 1 {
+			if a, ok := x.Args[0].(*ast.Ident); ok && t.locals[a.Name] == tyBytes {
+				// the capacity of a slice is not part of its value here: an input of the function
+				return fmt.Sprintf("(.v %s)", strconv.Quote("cap("+a.Name+")")), tyInt
 			}
 		}
 		if id, ok := x.Fun.(*ast.Ident); ok && id.Name == "make" && len(x.Args) == 3 && nows(src(x.Args[1])) == "0" {
@@ -821,7 +847,7 @@ func isUntypedConst(t *gsTr, e ast.Expr) bool {
 
 var binNames = map[token.Token]string{
 	token.ADD: ".add", token.SUB: ".sub", token.AND: ".and", token.OR: ".or", token.SHR: ".shr", token.SHL: ".shl", token.XOR: ".xor",
-	token.QUO: ".div", token.EQL: ".eq", token.NEQ: ".ne", token.LSS: ".lt", token.LEQ: ".le", token.GTR: ".gt", token.GEQ: ".ge",
+	token.QUO: ".div", token.MUL: ".mul", token.EQL: ".eq", token.NEQ: ".ne", token.LSS: ".lt", token.LEQ: ".le", token.GTR: ".gt", token.GEQ: ".ge",
 }
 
 func (t *gsTr) binary(x *ast.BinaryExpr, want gty) (string, gty) {
@@ -945,6 +971,19 @@ func funcResultTypes(fd *ast.FuncDecl) []gty {
 
 // methodCall recognises `x.M(args)` and `x.tape.M(args)` where M is a translated method.
 func (t *gsTr) methodCall(call *ast.CallExpr) (recv, callee string, ptrs, args []string, rtys []gty, ok bool) {
+	if id, isId := call.Fun.(*ast.Ident); isId {
+		// a translated plain function
+		known := false
+		for _, f := range goSrcFuncs {
+			if f == id.Name {
+				known = true
+			}
+		}
+		if !known || t.locals[id.Name] != tyUnk {
+			return
+		}
+		return t.callArgs(call, "", id.Name)
+	}
 	sel, isSel := call.Fun.(*ast.SelectorExpr)
 	if !isSel {
 		return
@@ -965,6 +1004,11 @@ func (t *gsTr) methodCall(call *ast.CallExpr) (recv, callee string, ptrs, args [
 	default:
 		return
 	}
+	return t.callArgs(call, recv, callee)
+}
+
+func (t *gsTr) callArgs(call *ast.CallExpr, recv, callee string) (string, string, []string, []string, []gty, bool) {
+	var ptrs, args []string
 	known := false
 	for _, f := range goSrcFuncs {
 		if f == callee {
@@ -1008,6 +1052,9 @@ func (t *gsTr) methodCall(call *ast.CallExpr) (recv, callee string, ptrs, args [
 	// hidden parameters: the callee compares its receiver with a pointer parameter
 	for _, hp := range goSrcAliasParams[callee] {
 		// hp = "<recv><op><param>", e.g. "i!=dst": find the argument bound to <param>
+		if cfd.Recv == nil {
+			gsDie(call, "hidden parameter of a plain function")
+		}
 		cr := cfd.Recv.List[0].Names[0].Name
 		op := "!="
 		if strings.Contains(hp, "==") {
@@ -1230,6 +1277,23 @@ func (t *gsTr) stmt0(s ast.Stmt, ind string) string {
 				}
 			}
 		}
+		// _ = parseStringSimd(buf, &pj.Strings.B): the copying kernel by contract
+		if x.Tok == token.ASSIGN && len(x.Lhs) == 1 && len(x.Rhs) == 1 {
+			if call, ok := x.Rhs[0].(*ast.CallExpr); ok && nows(src(call.Fun)) == "parseStringSimd" && len(call.Args) == 2 {
+				if bl, ok := x.Lhs[0].(*ast.Ident); ok && bl.Name == "_" {
+					buf, bty := t.expr(call.Args[0], tyBytes)
+					u, ok := call.Args[1].(*ast.UnaryExpr)
+					if !ok || u.Op != token.AND || bty != tyBytes {
+						gsDie(s, "kernel argument")
+					}
+					n, nty := t.lvalue(u.X)
+					if nty != tyBytes {
+						gsDie(s, "kernel argument")
+					}
+					return fmt.Sprintf(".extAssign [\"_\", %s] \"parseStringCopy\" [%s, (.v %s)]", strconv.Quote(n), buf, strconv.Quote(n))
+				}
+			}
+		}
 		// dst = escapeBytes(dst, sb) | strconv.AppendInt(dst, v, 10) | strconv.AppendUint(dst, v, 10); dst, err = appendFloat(dst, v)
 		if x.Tok == token.ASSIGN && len(x.Rhs) == 1 {
 			if call, ok := x.Rhs[0].(*ast.CallExpr); ok {
@@ -1420,6 +1484,22 @@ func (t *gsTr) stmt0(s ast.Stmt, ind string) string {
 				}
 				gsDie(s, "pointer assignment")
 			}
+			// x.Tape = append(x.Tape, e1, e2, …)
+			if base, ok := t.isTape(x.Lhs[0]); ok {
+				if ap, ok := x.Rhs[0].(*ast.CallExpr); ok && nows(src(ap.Fun)) == "append" && len(ap.Args) >= 2 && !ap.Ellipsis.IsValid() {
+					if b2, ok := t.isTape(ap.Args[0]); ok && b2 == base {
+						var es []string
+						for _, a := range ap.Args[1:] {
+							e, ty := t.expr(a, tyU64)
+							if ty != tyU64 {
+								gsDie(a, "tape word type")
+							}
+							es = append(es, e)
+						}
+						return fmt.Sprintf(".tapeAppend %s [%s]", strconv.Quote(base), strings.Join(es, ", "))
+					}
+				}
+			}
 			// x.tape.Tape = x.tape.Tape[:e]
 			if base, ok := t.isTape(x.Lhs[0]); ok {
 				sl, ok := x.Rhs[0].(*ast.SliceExpr)
@@ -1454,6 +1534,16 @@ func (t *gsTr) stmt0(s ast.Stmt, ind string) string {
 			}
 			return fmt.Sprintf(".assign %s %s", strconv.Quote(name), r)
 		case token.ADD_ASSIGN, token.SUB_ASSIGN, token.OR_ASSIGN, token.AND_ASSIGN:
+			if ix, ok := x.Lhs[0].(*ast.IndexExpr); ok && x.Tok == token.OR_ASSIGN {
+				if base, ok := t.isTape(ix.X); ok {
+					idx, ity := t.expr(ix.Index, tyInt)
+					e, ety := t.expr(x.Rhs[0], tyU64)
+					if (ity != tyInt && ity != tyU64) || ety != tyU64 {
+						gsDie(s, "tape store types")
+					}
+					return fmt.Sprintf(".tapeSet %s %s (.bin .or (.tapeAt %s %s) %s)", strconv.Quote(base), idx, strconv.Quote(base), idx, e)
+				}
+			}
 			name, ty := t.lvalue(x.Lhs[0])
 			r, rty := t.expr(x.Rhs[0], ty)
 			bitop := x.Tok == token.OR_ASSIGN || x.Tok == token.AND_ASSIGN
@@ -1477,6 +1567,27 @@ func (t *gsTr) stmt0(s ast.Stmt, ind string) string {
 		if x.Init != nil {
 			// the init statement runs first; what it defines is scoped to the `if` (the enclosing block's scope ends it)
 			pre = t.stmt(x.Init, ind) + ",\n" + ind
+		}
+		// if !parseStringSimdValidateOnly(buf, &maxStringSize, &size, &needCopy) {B}: the kernel by contract
+		if ne, ok := x.Cond.(*ast.UnaryExpr); ok && ne.Op == token.NOT && x.Else == nil {
+			if call, ok := ne.X.(*ast.CallExpr); ok && nows(src(call.Fun)) == "parseStringSimdValidateOnly" && len(call.Args) == 4 {
+				buf, bty := t.expr(call.Args[0], tyBytes)
+				var outs []string
+				for _, a := range call.Args[1:] {
+					u, ok := a.(*ast.UnaryExpr)
+					if !ok || u.Op != token.AND {
+						gsDie(a, "kernel argument")
+					}
+					n, _ := t.lvalue(u.X)
+					outs = append(outs, n)
+				}
+				if bty != tyBytes {
+					gsDie(s, "kernel argument")
+				}
+				// maxStringSize is passed by pointer but only read
+				return pre + fmt.Sprintf(".extAssign [\"#ok\", %s, %s] \"parseStringValidate\" [%s, (.v %s), (.v %s)],\n%s.ite (.not (.v \"#ok\")) %s []",
+					strconv.Quote(outs[1]), strconv.Quote(outs[2]), buf, strconv.Quote(outs[0]), strconv.Quote(outs[2]), ind, t.block(x.Body.List, ind))
+			}
 		}
 		// callbacks in the condition: `if fn(args) {B}` and `if fn == nil || fn(args) {B}`
 		if call, ok := x.Cond.(*ast.CallExpr); ok && x.Else == nil {
@@ -1741,6 +1852,18 @@ func (t *gsTr) stmt0(s ast.Stmt, ind string) string {
 		}
 		if cbs, ok := t.callback(call, "_"); ok {
 			return cbs
+		}
+		if id, ok := call.Fun.(*ast.Ident); ok && id.Name == "copy" && len(call.Args) == 2 {
+			d := call.Args[0]
+			if sl, ok := d.(*ast.SliceExpr); ok && sl.Low == nil && sl.High == nil {
+				d = sl.X // copy(x[:], y)
+			}
+			name, ty := t.lvalue(d)
+			src2, sty := t.expr(call.Args[1], tyBytes)
+			if ty != tyBytes || sty != tyBytes {
+				gsDie(s, "copy operands")
+			}
+			return fmt.Sprintf(".assign %s (.copyB (.v %s) %s)", strconv.Quote(name), strconv.Quote(name), src2)
 		}
 		sel, ok := call.Fun.(*ast.SelectorExpr)
 		if !ok {
